@@ -190,7 +190,12 @@ def expected(model, environ):
             if fnmatch_any(name, e["patterns"]):
                 look.update(dict(e["items"]))
         opts = {}
+        dicts = {"rlimits": {}, "hooks": {}, "stdout_stream": {},
+                 "stderr_stream": {}}
         for (opt, spelled, exp) in w["options"]:
+            if isinstance(exp, dict) and "dict" in exp:
+                dicts[exp["dict"]][exp["key"]] = exp["value"]
+                continue
             if isinstance(exp, dict) and "pieces" in exp:
                 val = expand_value(exp["pieces"], look)
                 if exp["type"] == 'int':
@@ -206,7 +211,7 @@ def expected(model, environ):
             opts.setdefault(opt, True)
         for opt, dv in DEFAULTS.items():
             opts.setdefault(opt, dv)
-        out[name] = {"env": env, "options": opts}
+        out[name] = {"env": env, "options": opts, "dicts": dicts}
     return out
 
 
@@ -291,6 +296,19 @@ def execute(case):
                              (extra + changed)[:4]),
                         dict((kk, x["env"].get(kk)) for kk in
                              (missing + changed)[:4]))))
+            for dname, dval in x["dicts"].items():
+                gd = dict(g.get(dname) or {})
+                if dname == 'rlimits':
+                    import resource
+                    dval = dict((kk, resource.RLIM_INFINITY if vv == 'INF'
+                                 else vv) for kk, vv in dval.items())
+                if dname == 'hooks':
+                    gd = dict((kk, list(vv)) for kk, vv in gd.items())
+                if gd != dval:
+                    viols.append(Violation(
+                        'C16:option:%s' % dname,
+                        'watcher %s: %s parsed as %r, its section says %r'
+                        % (name, dname, gd, dval)))
             for opt, val in x["options"].items():
                 gv = g.get(opt, '<absent>')
                 if gv == '<absent>' and opt in CTOR_DEFAULTS:
@@ -440,7 +458,10 @@ def _strategy():
                     'numprocesses', 'warmup_delay', 'max_retry',
                     'graceful_timeout', 'priority', 'stop_signal',
                     'working_dir', 'args', 'uid', 'freeform_x',
-                    'numprocesses', 'priority']), max_size=6, unique=True))
+                    'numprocesses', 'priority', 'rlimit_nofile',
+                    'rlimit_core', 'hooks.before_start',
+                    'stdout_stream.class', 'stderr_stream.filename']),
+                max_size=6, unique=True))
             for opt in chosen:
                 if opt in BOOL_OPTS_FALSE + BOOL_OPTS_TRUE:
                     val = draw(st.booleans())
@@ -459,6 +480,27 @@ def _strategy():
                     else:
                         v = draw(st.sampled_from(['0.5', '2.25', '10']))
                         opts.append([opt, v, float(v)])
+                elif opt == 'rlimit_nofile':
+                    v = draw(st.sampled_from(['500', '1024']))
+                    opts.append([opt, v, {"dict": "rlimits", "key": "nofile",
+                                          "value": int(v)}])
+                elif opt == 'rlimit_core':
+                    opts.append([opt, '', {"dict": "rlimits", "key": "core",
+                                           "value": "INF"}])
+                elif opt == 'hooks.before_start':
+                    flag = draw(st.sampled_from([None, 'true', 'False']))
+                    txt = 'some.mod.fn' + (',' + flag if flag else '')
+                    opts.append([opt, txt, {
+                        "dict": "hooks", "key": "before_start",
+                        "value": ['some.mod.fn', flag == 'true']}])
+                elif opt == 'stdout_stream.class':
+                    opts.append([opt, 'QueueStream', {
+                        "dict": "stdout_stream", "key": "class",
+                        "value": 'QueueStream'}])
+                elif opt == 'stderr_stream.filename':
+                    opts.append([opt, '/tmp/x.log', {
+                        "dict": "stderr_stream", "key": "filename",
+                        "value": '/tmp/x.log'}])
                 elif opt == 'stop_signal':
                     nm, num = draw(st.sampled_from(
                         [('TERM', 15), ('sigint', 2), ('QUIT', 3),
